@@ -214,8 +214,10 @@ func (e *fakeEnv) onDeploy(id string, ops []*jobpb.NodeIdentity, cks []*snapshot
 
 // sync pushes a no-op through the job's serial task queue: when it returns every earlier task has finished.
 func (e *fakeEnv) sync() {
-	e.job.HandleDeregisterOperator(&jobpb.NodeIdentity{Id: "nobody", Host: "x"})
-	e.job.HandleDeregisterOperator(&jobpb.NodeIdentity{Id: "nobody", Host: "x"})
+	// (not a deregistration of a node nobody knows: that would make the job evaluate the cluster, and purge
+	// expired members, at moments at which nothing in a real cluster makes it do so)
+	e.job.VerifSync()
+	e.job.VerifSync()
 }
 
 func (e *fakeEnv) register(n *fnode) {
@@ -420,9 +422,94 @@ func c15FakeRun(c *lib.Ctx, c12only bool) {
 		e.sync()
 		e.waitStatus(2*time.Second, "Running", "Paused", "Init")
 	}()
+	// directedLateAcks (C12's job-level rule, driven on purpose): a checkpoint is in progress, the members that are
+	// about to leave have acknowledged it, they leave, replacements register, and while the job deploys the next
+	// assembly (its Deploy call is slow) the members that stayed acknowledge the old checkpoint.
+	fresh := 0
+	directedLateAcks := func() {
+		e.sync()
+		e.mu.Lock()
+		armed := e.slowNext != nil
+		var asm []string
+		if len(e.formed) > 0 {
+			asm = append([]string{}, e.formed[len(e.formed)-1]...)
+		}
+		before := len(e.startCk)
+		e.mu.Unlock()
+		if armed || len(asm) < 2 || e.job.VerifStatus() != "Running" || e.job.VerifPendingSnapshot() != nil {
+			return
+		}
+		for _, id := range asm {
+			if n := e.nodes[id]; n == nil || !n.alive || !n.registered {
+				return
+			}
+		}
+		tickCk()
+		e.sync()
+		p := e.job.VerifPendingSnapshot()
+		e.mu.Lock()
+		started := len(e.startCk) > before
+		e.mu.Unlock()
+		if p == nil || !started {
+			return
+		}
+		id := p.ID
+		leave := lib.Shuffled(r, asm)[:1+r.Intn(len(asm)-1)] // a non-empty proper subset leaves
+		leaving := map[string]bool{}
+		for _, n := range leave {
+			leaving[n] = true
+		}
+		e.logf("directed: checkpoint %d in progress; %v acknowledge it and then leave", id, leave)
+		ackAll(func(n string) bool { return leaving[n] })
+		e.mu.Lock()
+		e.slowNext = make(chan struct{})
+		e.mu.Unlock()
+		for _, n := range leave {
+			e.deregister(e.nodes[n])
+		}
+		for _, n := range leave { // replacements
+			fresh++
+			f := &fnode{id: fmt.Sprintf("%sy%d.%d", map[bool]string{true: "op", false: "sr"}[e.nodes[n].isOp], fresh, c.Index), isOp: e.nodes[n].isOp, alive: true}
+			e.mu.Lock()
+			e.nodes[f.id] = f
+			e.mu.Unlock()
+			all = append(all, f)
+			e.register(f)
+		}
+		e.sync()
+		for dl := time.Now().Add(2 * time.Second); time.Now().Before(dl); {
+			e.mu.Lock()
+			pk := e.parked
+			e.mu.Unlock()
+			if pk {
+				break
+			}
+			time.Sleep(100 * time.Microsecond)
+		}
+		e.mu.Lock()
+		pk := e.parked
+		e.mu.Unlock()
+		if pk && !e.published(id) {
+			e.logf("directed: while the next assembly is being deployed, the members that stayed acknowledge checkpoint %d", id)
+			ackAll(func(n string) bool { return !leaving[n] })
+			e.mu.Lock()
+			e.lateAcked = append(e.lateAcked, id)
+			e.mu.Unlock()
+			c.Feat("directed_late_acks", 1)
+		}
+		releaseSlow()
+		e.sync()
+		e.waitStatus(5*time.Second, "Running", "Paused", "Init")
+		e.sync()
+		time.Sleep(2 * time.Millisecond) // an (illegitimate) publication is asynchronous
+		e.checkAbandonedNotPublished()
+	}
 	// the script
 	nsteps := 10 + r.Intn(40)
 	for step := 0; step < nsteps; step++ {
+		if c12only && r.Intn(5) == 0 {
+			directedLateAcks()
+		}
 		switch x := r.Intn(21); {
 		case x == 20:
 			e.mu.Lock()
